@@ -2,7 +2,9 @@ package impl
 
 import (
 	"bytes"
+	"fmt"
 	"io"
+	"strings"
 
 	"github.com/wkhere/bcl"
 )
@@ -10,7 +12,7 @@ import (
 // Answer is one scripted answer of a reader: N bytes and/or an error.
 type Answer struct {
 	N   int    `json:"n"`
-	Err string `json:"err,omitempty"` // "" | "EOF" | other text (a non-EOF error)
+	Err string `json:"err,omitempty"` // "" | "EOF" | other text (a non-EOF error; "wrapeof..." wraps io.EOF, "unexpected-eof" is io.ErrUnexpectedEOF)
 }
 
 // ScriptFile is a FileInput whose Read calls are answered by a script over Data.
@@ -23,6 +25,7 @@ type ScriptFile struct {
 	Reads  int
 	Closes int
 	sticky error
+	after  int
 	ErrVal error // the error value delivered for non-EOF errors
 }
 
@@ -44,6 +47,10 @@ func (f *ScriptFile) Close() error {
 func (f *ScriptFile) Read(p []byte) (int, error) {
 	f.Reads++
 	if f.sticky != nil {
+		f.after++
+		if f.after > 4096 {
+			panic("the input was read more than 4096 times after it had reported " + f.sticky.Error())
+		}
 		return 0, f.sticky
 	}
 	var a Answer
@@ -76,7 +83,14 @@ func (f *ScriptFile) Read(p []byte) (int, error) {
 		f.sticky = err
 	default:
 		if f.ErrVal == nil {
-			f.ErrVal = &scriptErr{a.Err}
+			switch {
+			case strings.HasPrefix(a.Err, "wrapeof"):
+				f.ErrVal = fmt.Errorf("%s: %w", a.Err, io.EOF)
+			case a.Err == "unexpected-eof":
+				f.ErrVal = io.ErrUnexpectedEOF
+			default:
+				f.ErrVal = &scriptErr{a.Err}
+			}
 		}
 		err = f.ErrVal
 		f.sticky = err
